@@ -1,5 +1,5 @@
 //@ create src/cli/tests/verif_argv.rs
-//@ native verif_oracle_cli_flows "bounded stand-in / witness finder (C01, C02, C05, C07, C08, C13, C16): the built kestrel binary on the shipped two-key keyring: encrypt for every (from, to) in {alice, bob}^2 (incl. to self) with a 10-byte and a 70000-byte input, file length = 132 + 32 per chunk + plaintext, decrypt as each key succeeds exactly for `to`, returns the input and names `from`, a failed decrypt leaves no output file and an existing one intact; with the last chunk of a two-chunk file corrupted the output holds exactly the first chunk and the exit status is 1; password mode round trip, rejection of a different password and of the password with a trailing space, tab or newline; extract-pub accepts the key's password and rejects it with a trailing newline / CR LF / space, a leading space, or one letter changed; change-pass (also to a password ending in a newline) keeps the public key, makes the old password fail, draws a new salt also when the new password equals the old one; two identical encrypt invocations differ in their ephemeral key"
+//@ native verif_oracle_cli_flows "bounded stand-in / witness finder (C01, C02, C05, C07, C08, C13, C16): the built kestrel binary on the shipped two-key keyring: encrypt for every (from, to) in {alice, bob}^2 (incl. to self) with a 10-byte and a 70000-byte input, file length = 132 + 32 per chunk + plaintext, the same number of bytes and the magic when the ciphertext goes to standard output, decrypt as each key succeeds exactly for `to`, returns the input and names `from`, a failed decrypt leaves no output file and an existing one intact; with the last chunk of a two-chunk file corrupted the output holds exactly the first chunk and the exit status is 1; password mode round trip, rejection of a different password and of the password with a trailing space, tab or newline; extract-pub accepts the key's password and rejects it with a trailing newline / CR LF / space, a leading space, or one letter changed; change-pass (also to a password ending in a newline) keeps the public key, makes the old password fail, draws a new salt also when the new password equals the old one; two identical encrypt invocations differ in their ephemeral key"
 //@ native verif_oracle_argv_sweep "bounded stand-in / witness finder (C09, C13): the built kestrel binary (stdin closed, no controlling terminal, KESTREL_* unset, scratch working directory) on every argument vector of length <= 2 over 38 tokens (commands, options, aliases, paths of the shipped test keyring / data files, a missing path, an absent output path, empty and non-ASCII strings), every length-3 vector starting with a command word, and 7 complete command lines with each element in turn dropped, duplicated, or replaced by a missing path or one of 10 degenerate strings ('', '.', '..', '/', ...): exit status is 0 or 1, never a signal or panic text; status 1 carries an 'Error:' line; a failed run never leaves a file at the absent output path"
 // Native oracle on the REAL binary.  Never counted as proved; a disagreement is a concrete failing argument vector.
 use std::path::PathBuf;
@@ -124,6 +124,14 @@ fn verif_oracle_cli_flows() {
         let ctb = std::fs::read(&ct).unwrap_or_default();
         let chunks = if data.is_empty() { 1 } else { (data.len() + 65535) / 65536 };
         if ctb.len() != 132 + 32 * chunks + data.len() { fail(&mut bad, &mut first, format!("encrypt {} from {} to {}: file length {} is not 132 + 32*{} + {}", inp, from, to, ctb.len(), chunks, data.len())); }
+        if inp == "small" {
+            // the same encryption with the ciphertext on standard output: nothing but the file may appear there
+            n += 1;
+            let r2 = verif_cmd(&dir, &["encrypt", &p(inp), "-t", to, "-f", from, "-k", &keyring, "--env-pass"], &[("KESTREL_PASSWORD", fpw)]);
+            if r2.code != Some(0) || r2.out.len() != ctb.len() || r2.out[..4] != ctb[..4] {
+                fail(&mut bad, &mut first, format!("encrypt from {} to {} to standard output: exit {:?}, {} bytes (the file written with -o has {}), first bytes {:02x?}", from, to, r2.code, r2.out.len(), ctb.len(), &r2.out[..r2.out.len().min(8)]));
+            }
+        }
         for (reader, rpw) in users.iter() {
             n += 1;
             let out = p("pt"); std::fs::write(&out, b"PREVIOUS CONTENT").unwrap();
